@@ -32,7 +32,7 @@ RULE = (
 
 
 def gen_case(r: random.Random) -> dict[str, Any]:
-    pre = [{"x": r.choice([0.0, 0.25, 1.0, 0.123456789]), "c": r.choice(["a", "b"])} for _ in range(r.randint(0, 3))]
+    pre = [{"x": r.choice([0.0, 0.25, 1.0, 0.123456789]), "c": r.choice(["a", "b", None])} for _ in range(r.randint(0, 3))]   # None is a legal (falsy) choice
     for p0 in pre:
         if r.random() < 0.5:
             # stepped parameters: on the grid, and inside the range but OFF the grid (optuna warns and hands it over as is)
@@ -53,7 +53,7 @@ def gen_case(r: random.Random) -> dict[str, Any]:
                     p["s"] = r.choice([0.5, 0.3, 0.9])
                     p["m"] = r.choice([2, 3, 9])
                 if r.random() < 0.5:
-                    p["c"] = r.choice(["a", "b"])
+                    p["c"] = r.choice(["a", "b", None])
                 acts.append({"a": "enqueue", "params": p, "tag": tag})
                 tag += 1
             else:
@@ -143,7 +143,7 @@ def run_case(cfg: str, case: dict[str, Any], seed: int, tmp: str, controlled: bo
                         ev = {"a": "ask", "th": th, "inv": inv, "ret": ret, "tid": t._trial_id, "number": t.number}
                         if act["suggest"]:
                             ev["x"] = t.suggest_float("x", 0, 1)
-                            ev["c"] = t.suggest_categorical("c", ["a", "b"])
+                            ev["c"] = t.suggest_categorical("c", ["a", "b", None])
                             ev["n"] = t.suggest_int("n", 0, 5)
                             ev["x2"] = t.suggest_float("x", 0, 1)
                             with warnings.catch_warnings():
@@ -432,17 +432,23 @@ def search(chk: core.Check) -> None:
 
 def main(chk: core.Check) -> int:
     chk.rule = RULE
-    from verif.props import c02_gen
+    from verif.props import c02_gen, c04_enqueue_gen
     c02_gen.regenerate(chk, c02_gen.C04_FUNCS)   # T-tell: Study._pop_waiting_trial_id as statement IR (Generated/TellMethods.lean)
+    c04_enqueue_gen.regenerate(chk)   # T-enqueue: enqueue_trial / _should_skip_enqueue / add_trial(s) / queue part of ask / Trial.__init__ (Generated/EnqueueMethods.lean)
     if not getattr(chk, "no_prove", False):
-        chk.prove(["OptunaVerif.Props.C04", c02_gen.MODULE_C04])
+        chk.prove(["OptunaVerif.Props.C04", c02_gen.MODULE_C04, c04_enqueue_gen.MODULE])
         c02_gen.explain_proof_failure(chk, c02_gen.MODULE_C04)
+        c04_enqueue_gen.explain_proof_failure(chk)
     quick = chk.tier == "quick"
     explore(chk, ["mem", "journal-symlink", "journal-open"], 120 if quick else 2500, True)
     explore(chk, ["rdb", "cached", "grpc(mem)", "grpc(rdb)", "grpc(journal)"], 16 if quick else 400, False, tag="-free")
     race_burst(chk, ["rdb", "cached", "mem", "journal-symlink", "grpc(rdb)"], 150 if quick else 3000)
     try:
         cursor_correspondence(chk, 300 if quick else 6000)
+    except core.DriverBroken as e:
+        chk.broke("correspondence", {"driver": str(e)[:600]})
+    try:
+        c04_enqueue_gen.k_stage(chk)   # real enqueue / add_trial / ask / suggest on in-memory + SQLite vs generated interpreter vs hand model
     except core.DriverBroken as e:
         chk.broke("correspondence", {"driver": str(e)[:600]})
     chk.assumptions += ["fairness of the OS scheduler is not modelled: 'none is skipped' is checked as stated in DESIGN (an ask() that began after a trial was queued never creates a new trial while that one stays WAITING)",
